@@ -26,8 +26,8 @@ def pool_linearizability(chk, sd, tier):
                          extra_overlay={"internal/loadbalancer/zz_verif_export.go": "accessors/lb_verif_export.go"})
     cs, r = cases.enumerate_cases("GenLinPool", "GenLinPool.cfg", env={"TIER": tier})
     chk.add_tlc("concurrent pool cases (spec/LinPool.tla)", r)
-    reps = 40 if tier == "thorough" else 10
-    tp = cases.execute(binp, cs, sd, "linpool", timeout=3000, extra_args=[str(reps)])
+    reps = 12 if tier == "thorough" else 10
+    tp = cases.execute_chunked(binp, cs, sd, "linpool", chunk=6000, timeout=3000, extra_args=[str(reps)], par=3)
     st = json.load(open(tp + ".ok"))
     chk.cov["concurrent_histories_run"] = st["histories"]
     chk.cov["concurrent_histories_distinct"] = st["distinct"]
